@@ -11,51 +11,265 @@ from ..packs import ecc
 from ..report import Ctx
 
 
+#: engine method -> attribute of self.database that is the full table / map of the data
+_FULL = {'setData': 'self.database.data', 'setDataMap': 'self.database.individualMap'}
+
+
+def _engine_call(fn: ast.AST, c: ast.AST) -> str | None:
+    """'setData' / 'setDataMap' when c hands a table / map to the engine object of the instance (self.theC, also through a local alias)"""
+    if isinstance(c, ast.Call) and isinstance(c.func, ast.Attribute) and c.func.attr in _FULL and unparse(inline_locals(fn, c.func.value)) == 'self.theC':
+        return c.func.attr
+    return None
+
+
+def _handed(c: ast.Call) -> ast.expr | None:
+    if c.args and not isinstance(c.args[0], ast.Starred):
+        return c.args[0]
+    if not c.args and len(c.keywords) == 1 and c.keywords[0].arg:
+        return c.keywords[0].value
+    return None
+
+
+class Flow:
+    """one function seen through its tests.  Truth of the `if` tests of one function under the tests that guard a statement: tests are compared after the locals have
+    been resolved, through `not`, `and` / `or`, `is None` / `is not None` (either side) and the definition of is_panel()"""
+
+    def __init__(self, fn: ast.AST, panel_is_column: bool):
+        self.fn = fn
+        self.panel_is_column = panel_is_column
+        a = fn.args
+        params = {x.arg for x in a.posonlyargs + a.args + a.kwonlyargs}
+        stored = {n.id for n in walk_no_nested(fn) if isinstance(n, ast.Name) and not isinstance(n.ctx, ast.Load)}
+        #: names whose value cannot change inside the function
+        self.fixed = (params - stored) | {'self'}
+        self.parent = {}
+        for n in walk_no_nested(fn):
+            for ch in ast.iter_child_nodes(n):
+                self.parent[id(ch)] = n
+
+    def norm(self, e: ast.expr, resolved: bool = False):
+        if not resolved:
+            e = inline_locals(self.fn, e)
+        if isinstance(e, ast.UnaryOp) and isinstance(e.op, ast.Not):
+            return ('not', self.norm(e.operand, True))
+        if isinstance(e, ast.BoolOp):
+            return ('and' if isinstance(e.op, ast.And) else 'or', [self.norm(v, True) for v in e.values])
+        if isinstance(e, ast.Compare) and len(e.ops) == 1 and isinstance(e.ops[0], (ast.Is, ast.IsNot)):
+            sides = [e.left, e.comparators[0]]
+            none = [s for s in sides if isinstance(s, ast.Constant) and s.value is None]
+            other = [s for s in sides if not (isinstance(s, ast.Constant) and s.value is None)]
+            if len(none) == 1 and len(other) == 1:
+                x = other[0]
+                base = self.lit(x, f'{unparse(x)} is None')
+                if self.panel_is_column and isinstance(x, ast.Attribute) and x.attr == 'panelColumn':
+                    base = ('not', self.lit(x, f'{unparse(x.value)}.is_panel()'))
+                return base if isinstance(e.ops[0], ast.Is) else ('not', base)
+        return self.lit(e, unparse(e))
+
+    def lit(self, e: ast.expr, text: str):
+        # a test that reads a local the rule could not resolve (assigned several times, loop variable) may change between two evaluations
+        free = {n.id for n in ast.walk(e) if isinstance(n, ast.Name)}
+        return ('lit', text if free <= self.fixed else None)
+
+    def assume(self, t, value: bool, facts: dict) -> None:
+        if t[0] == 'lit':
+            if t[1] is not None:
+                facts[t[1]] = value
+        elif t[0] == 'not':
+            self.assume(t[1], not value, facts)
+        elif (t[0] == 'and' and value) or (t[0] == 'or' and not value):
+            for x in t[1]:
+                self.assume(x, value, facts)
+
+    def value(self, t, facts: dict) -> bool | None:
+        if t[0] == 'lit':
+            return facts.get(t[1]) if t[1] is not None else None
+        if t[0] == 'not':
+            v = self.value(t[1], facts)
+            return None if v is None else not v
+        vs = [self.value(x, facts) for x in t[1]]
+        if t[0] == 'and':
+            return False if any(v is False for v in vs) else (True if all(v is True for v in vs) else None)
+        return True if any(v is True for v in vs) else (False if all(v is False for v in vs) else None)
+
+    def stmt_of(self, n: ast.AST) -> ast.stmt | None:
+        while n is not None and not isinstance(n, ast.stmt):
+            n = self.parent.get(id(n))
+        return n
+
+    def guards(self, n: ast.AST) -> dict:
+        """what is known to hold where n stands: the tests of the enclosing `if` statements, with the arm n stands in"""
+        facts: dict = {}
+        child, p = n, self.parent.get(id(n))
+        while p is not None:
+            if isinstance(p, ast.If) and child is not p.test:
+                self.assume(self.norm(p.test), any(child is s for s in p.body), facts)
+            child, p = p, self.parent.get(id(p))
+        return facts
+
+
+    # ---- the graph of the function under what is known to hold
+
+    def _graph(self):
+        if getattr(self, 'cfg', None) is None:
+            self.cfg = cfg_of(self.fn)
+            #: statement -> its nodes (the statements of a `finally` stand once per way of leaving the `try`)
+            self.nodes_of: dict[int, list[int]] = {}
+            for nn, st in self.cfg.stmt.items():
+                if isinstance(st, ast.AST):
+                    self.nodes_of.setdefault(id(st), []).append(nn)
+            self.ifs = [x for x in walk_no_nested(self.fn) if isinstance(x, ast.If)]
+            self.loops = [x for x in walk_no_nested(self.fn) if isinstance(x, (ast.For, ast.While))]
+        return self.cfg
+
+    def at(self, x: ast.AST) -> list[int]:
+        """the nodes of the statement that evaluates x"""
+        self._graph()
+        st = self.stmt_of(x)
+        return self.nodes_of.get(id(st), []) if st is not None else []
+
+    def under(self, facts: dict):
+        """(graph, undecided ifs): the graph of the function on the paths where the tests in `facts` keep their value: an `if` whose test is decided by
+        them has one arm only"""
+        cfg = self._graph()
+        g = cfg.g.copy()
+        undecided = []
+        for i in self.ifs:
+            v = self.value(self.norm(i.test), facts)
+            if v is None:
+                undecided.append(i)
+                continue
+            body_first = set(self.nodes_of.get(id(_first_stmt(i.body)), []))
+            for h in self.nodes_of.get(id(i), []):
+                for s in list(g.successors(h)):
+                    if cfg._kind.get(s) != 'except' and (s in body_first) != v:
+                        g.remove_edge(h, s)
+        return g, undecided
+
+    def holders(self, calls: list[ast.AST], undecided: list[ast.If]) -> dict[int, ast.AST]:
+        """node -> statement, for the undecided ifs and the loops that hold one of the calls: the statements through which a path may or may not reach the call"""
+        self._graph()
+        return {x: i for i in undecided + self.loops if any(c is sub for c in calls for sub in ast.walk(i)) for x in self.nodes_of.get(id(i), [])}
+
+
+def _first_stmt(body: list[ast.stmt]) -> ast.stmt:
+    st = body[0]
+    while isinstance(st, ast.Try):
+        st = st.body[0]
+    return st
+
+
+def _reached_without(g, b: int, points: set[int]) -> bool:
+    """some path from the entry reaches b without passing one of the points"""
+    import networkx as nx
+
+    if b in points:
+        return False
+    h = g.copy()
+    h.remove_nodes_from([p_ for p_ in points if p_ != b])
+    return 0 in h and b in h and nx.has_path(h, 0, b)
+
+
+def _leaves(g, a: int, targets: set[int], exits=(1, 2)) -> bool:
+    """some path from a (exclusive) reaches an exit without passing a target"""
+    import networkx as nx
+
+    h = g.copy()
+    h.remove_nodes_from([t for t in targets if t != a])
+    for s in list(g.successors(a)):
+        if s in targets:
+            continue
+        for e in exits:
+            if s == e or (s in h and e in h and nx.has_path(h, s, e)):
+                return True
+    return False
+
+
 def restore_rule(ctx: Ctx, rule: str) -> None:
     """every hand-over of a resample to the engine is followed, on all exits, by a hand-over of the full data"""
     prog = ctx.prog
     B = prog.cls('biogeme', 'BIOGEME')
+    ip = prog.cls('database', 'Database').methods.get('is_panel')
+    panel_is_column = ip is not None and len(ip.body) == 1 and unparse(ip.body[0]) == 'return self.panelColumn is not None'
+    #: methods that talk to the engine about its data themselves: calling one of them may be the restoration
+    hands_over = {name for name, m in B.methods.items() if any(_engine_call(m.node, c) for c in walk_no_nested(m.node))}
     n = 0
     for f in B.methods.values():
-        calls = [c for c in walk_no_nested(f.node) if isinstance(c, ast.Call) and unparse(c.func) in ('self.theC.setData', 'self.theC.setDataMap')]
+        if getattr(f.node, '_verif_transparent', False):
+            continue  # a new helper all of whose calls were expanded in place: examined where it is called
+        calls = [(c, _engine_call(f.node, c)) for c in walk_no_nested(f.node)]
+        calls = [(c, k) for c, k in calls if k]
         if not calls:
             continue
-        cfg = cfg_of(f.node)
-        full = {'self.theC.setData': 'self.database.data', 'self.theC.setDataMap': 'self.database.individualMap'}
-        resample = [c for c in calls if c.args and unparse(c.args[0]) != full[unparse(c.func)]]
-        restores = {k: [c for c in calls if unparse(c.func) == k and c.args and unparse(c.args[0]) == v] for k, v in full.items()}
-        ifs = [x for x in walk_no_nested(f.node) if isinstance(x, ast.If)]
-
-        def arm_of(call):
-            """(test text, 'body'|'orelse') of the innermost if whose arm directly contains the statement of the call"""
-            best = None
-            for i in ifs:
-                for side, stmts in (('body', i.body), ('orelse', i.orelse)):
-                    for st in stmts:
-                        if any(sub is call for sub in ast.walk(st)) and not isinstance(st, (ast.If, ast.For, ast.While, ast.Try, ast.With)):
-                            best = (unparse(i.test), side, i)
-            return best
-
-        for c in resample:
+        args = {id(c): (inline_locals(f.node, _handed(c)) if _handed(c) is not None else None) for c, _ in calls}
+        text = {id(c): (unparse(args[id(c)]) if args[id(c)] is not None else '?') for c, _ in calls}
+        resample = [(c, k) for c, k in calls if text[id(c)] != _FULL[k]]
+        if getattr(f.node, '_verif_new_helper', False):
+            # a method the reference tree does not have and whose calls could not be expanded: what follows the hand-over is in its callers
+            for c, k in resample:
+                n += 1
+                ctx.add(rule, f'{f.qualname}:{k}({text[id(c)]})', None, (f.file, c.lineno),
+                        f'{k}({text[id(c)]}) stands in the new method {f.name}, which the rule cannot place in the entry points that call it: whether {k}({_FULL[k]}) follows on every exit is not decided',
+                        detail=unparse(c))
+            continue
+        if not resample:
+            continue
+        tests = Flow(f.node, panel_is_column)
+        # something else than a direct call on the engine may hand the data over: the engine object or the instance given away, a method that
+        # is new or that hands data over itself
+        elsewhere = []
+        for x in walk_no_nested(f.node):
+            if isinstance(x, ast.Attribute) and isinstance(x.ctx, ast.Load) and unparse(x) == 'self.theC':
+                p = tests.parent.get(id(x))
+                pp = tests.parent.get(id(p)) if p is not None else None
+                direct = isinstance(p, ast.Attribute) and isinstance(pp, ast.Call) and pp.func is p
+                alias = isinstance(p, ast.Assign) and p.value is x and len(p.targets) == 1 and isinstance(p.targets[0], ast.Name)
+                if alias:
+                    nm = p.targets[0].id
+                    uses = [u for u in walk_no_nested(f.node) if isinstance(u, ast.Name) and u.id == nm and u is not p.targets[0]]
+                    alias = all(isinstance(u.ctx, ast.Load) and isinstance(tests.parent.get(id(u)), ast.Attribute) and isinstance(tests.parent.get(id(tests.parent.get(id(u)))), ast.Call)
+                                and tests.parent.get(id(tests.parent.get(id(u)))).func is tests.parent.get(id(u)) for u in uses)
+                if not (direct or alias):
+                    elsewhere.append(f'the engine object is passed on (line {x.lineno})')
+            if isinstance(x, ast.Call):
+                fn_ = x.func
+                if isinstance(fn_, ast.Attribute) and isinstance(fn_.value, ast.Name) and fn_.value.id == 'self' and fn_.attr != f.name:
+                    m = B.resolve(fn_.attr)
+                    if m is not None and (getattr(m.node, '_verif_new_helper', False) or fn_.attr in hands_over):
+                        elsewhere.append(f'self.{fn_.attr}() talks to the engine itself')
+                elif isinstance(fn_, ast.Name) and any(isinstance(a_, ast.Name) and a_.id == 'self' for a_ in list(x.args) + [kw.value for kw in x.keywords]):
+                    m = f.module.functions.get(fn_.id)
+                    if m is not None and getattr(m.node, '_verif_new_helper', False):
+                        elsewhere.append(f'{fn_.id}(self) is a new function that receives the instance')
+        for c, k in resample:
             n += 1
-            k = unparse(c.func)
-            a = cfg.node_of(c)
-            arm = arm_of(c)
-            targets = set()
-            for r in restores[k]:
-                ra = arm_of(r)
-                if arm is not None and ra is not None and ra[:2] == arm[:2] and ra[2] is not arm[2]:
-                    # same predicate selects the resample and its restoration: the if statement itself is the target
-                    targets.add(cfg.node_of(ra[2]))
-                elif ra is None or arm is None:
-                    targets.add(cfg.node_of(r))
-            ok = bool(targets) and cfg.must_pass(a, targets, exits=(1, 2))
+            full = f'{k}({_FULL[k]})'
+            shown = text[id(c)]
+            starts = tests.at(c)
+            # the graph of the function on the paths where the tests that select this hand-over keep their value
+            g, undecided = tests.under(tests.guards(c))
+            restores = [r for r, kr in calls if kr == k and text[id(r)] == _FULL[k]]
+            targets = {x for r in restores for x in tests.at(r)}
+            ok = bool(targets) and bool(starts) and not any(_leaves(g, a, targets) for a in starts)
             # only a table known to be another one than the full data (a resample, the copy made at construction) makes this an accusation
-            known = re.search(r'with_replacement\(|\.fullData\b', unparse(inline_locals(f.node, c.args[0]))) is not None
-            ctx.add(rule, f'{f.qualname}:{k.split(".")[-1]}({unparse(c.args[0])})', ok if (ok or known) else None, (f.file, c.lineno),
-                    f'the engine receives {unparse(c.args[0])}; every exit of {f.name} passes a {k.split(".")[-1]}({full[k]}) afterwards' if ok
-                    else (f'the engine keeps {unparse(c.args[0])} after {f.name} returns: no {k.split(".")[-1]}({full[k]}) on every exit' if known else f'{k.split(".")[-1]}({unparse(c.args[0])}): what is handed to the engine is not in a form the rule understands'),
-                    detail=unparse(c), positive=known and not ok)
+            known = re.search(r'with_replacement\(|\.fullData\b', shown) is not None
+            wrong = False
+            if not ok and known and starts and not elsewhere:
+                # no restoration at all on some exit, even if every test the rule cannot relate to the hand-over selects the arm with the
+                # restoration and every loop that holds one is entered
+                maybe = set(tests.holders(restores, undecided))
+                wrong = any(_leaves(g, a, targets | maybe) for a in starts)
+            if ok:
+                msg = f'the engine receives {shown}; every exit of {f.name} passes a {full} afterwards'
+            elif wrong:
+                msg = f'the engine keeps {shown} after {f.name} returns: no {full} on every exit'
+            elif not known:
+                msg = f'{k}({shown}): what is handed to the engine is not in a form the rule understands'
+            elif elsewhere:
+                msg = f'the engine receives {shown}; a {full} on every exit of {f.name} is not established ({elsewhere[0]})'
+            else:
+                msg = f'the engine receives {shown}; a {full} follows under tests the rule cannot relate to the tests that select the hand-over: not decided'
+            ctx.add(rule, f'{f.qualname}:{k}({shown})', True if ok else (False if wrong else None), (f.file, c.lineno), msg, detail=unparse(c), positive=wrong)
     if n == 0:
         ctx.note(f'{rule}: no resample is handed to the engine any more')
 
@@ -86,13 +300,17 @@ def _roles(ctx: Ctx) -> None:
         det = ''
         if okc:
             bound = prog.bind_call(init, calls[0].value) or {}
-            det = {k: unparse(v) for k, v in bound.items()}
+            # (a list of names kept in a local is that list)
+            det = {k: unparse(inline_locals(init.node, v)) for k, v in bound.items()}
             okc = det == {'dict_of_formulas': 'formulas', 'valid_keywords': names}
         wrong = None
-        if not okc and len(calls) == 1 and isinstance(det, dict) and det.get('dict_of_formulas') == 'formulas' and 'valid_keywords' in det:
+        if not okc and len(calls) == 1 and isinstance(det, dict) and det.get('dict_of_formulas') == 'formulas' and 'valid_keywords' in det and names not in det['valid_keywords']:
+            # the keywords handed over are not made from the list of documented spellings at all
             wrong = f'{attr} is looked up under {det["valid_keywords"]} only, not under all of {names}: a formula given under another documented spelling is ignored'
         elif not calls:
             single = [a for a in walk_no_nested(init.node) if isinstance(a, ast.Assign) and unparse(a.targets[0]) == attr and re.fullmatch(r'(self\.)?formulas(\.get\(.+\)|\[.+\])', unparse(a.value))]
+            # (a key that is the variable of a loop over the spellings is every spelling in turn)
+            single = [a for a in single if {x.id for k_ in ([a.value.slice] if isinstance(a.value, ast.Subscript) else a.value.args[:1]) for x in ast.walk(inline_locals(init.node, k_)) if isinstance(x, ast.Name)} <= {'self'}]
             if single:
                 wrong = f'{attr} = {unparse(single[0].value)}: the entry is looked up under one spelling only, a formula given under another documented spelling ({names}) is ignored'
         ctx.add('C04.R5', f'BIOGEME.__init__:{attr}', okc if (okc or wrong) else None, (init.file, calls[0].lineno if calls else init.line),
@@ -119,7 +337,6 @@ return dict_of_formulas[_FOUND]
 #: obligations whose failure contradicts the property (rule, construct pattern, why); every other failure is 'not recognised'
 POSITIVE: list[tuple[str, str, str]] = [
     ('C04.R1', r':self\.theC\.\w+\(', 'engine-call contract: an argument handed to the engine has another role than the slot the engine reads'),
-    ('C04.R4', r':set(Data|DataMap)\(', 'a resample handed to the engine is not replaced by the full data on some exit'),
 ]
 
 
